@@ -196,8 +196,16 @@ func tapBubble(c *harness.Ctx) {
 		return append([]tapEvent(nil), history...)
 	}
 	go cl.VerifUriLoop(cluster, loopCh)
+	quit := make(chan struct{})
 	go func() {
-		for e := range tcEvents {
+		defer close(loopCh) // ends the update loop
+		for {
+			var e d2.TreeCacheEvent
+			select {
+			case e = <-tcEvents:
+			case <-quit:
+				return
+			}
 			te := tapEvent{path: e.Path, del: e.Data == nil}
 			if e.Data != nil {
 				te.data = append([]byte(nil), (*e.Data)...)
@@ -205,10 +213,23 @@ func tapBubble(c *harness.Ctx) {
 			hmu.Lock()
 			history = append(history, te)
 			hmu.Unlock()
-			loopCh <- e
+			select {
+			case loopCh <- e:
+			case <-quit:
+				return
+			}
 		}
 	}()
-	d2.NewTreeCache(conn, zkPath, tcEvents)
+	tc := d2.NewTreeCache(conn, zkPath, tcEvents)
+	// whatever way the run ends: the connection is closed and the goroutines of this run are told to go (a worker
+	// process executes tens of thousands of runs; what a run leaves behind stays reachable for ever)
+	defer func() {
+		conn.Close()
+		go tc.Stop() // the loop may be busy; it is not waited for
+		time.Sleep(time.Second)
+		close(quit)
+		synctest.Wait()
+	}()
 	synctest.Wait()
 
 	type seen struct {
@@ -382,5 +403,4 @@ func tapBubble(c *harness.Ctx) {
 		h.Write(e.data)
 	}
 	c.Digest(h.Sum64())
-	conn.Close()
 }
